@@ -56,7 +56,7 @@ def defaultRawValue (B : Base) (d : Nat) : Expr :=
 
 /-- how a generated function is to be read -/
 inductive ItemKind where
-  | assocConst | method | traitMethod | structDef | builderStep | build
+  | assocConst | method | setter | traitMethod | structDef | builderStep | build
   deriving Repr, DecidableEq, Inhabited
 
 /-- one generated item, as far as the API-surface properties (C15, C17, C18) talk about it -/
@@ -80,7 +80,7 @@ def accessorItems (fd : FieldDef) : List Item :=
   (if fd.getter then [{ kind := .method, name := fd.name, isPub := true, isConst := true, hasDoc := fd.docs > 0, field := some fd.name }] else []) ++
   (if fd.setter then
     [{ kind := .method, name := "with_" ++ stripRaw fd.name, isPub := true, isConst := true, hasDoc := fd.docs > 0, field := some fd.name },
-     { kind := .method, name := "set_" ++ stripRaw fd.name, isPub := true, isConst := false, hasDoc := fd.docs > 0, field := some fd.name }]
+     { kind := .setter, name := "set_" ++ stripRaw fd.name, isPub := true, isConst := false, hasDoc := fd.docs > 0, field := some fd.name }]
    else [])
 
 /-- the whole expansion of one `#[bitfield]` -/
@@ -169,5 +169,28 @@ def expand (resolve : List String → Nat) (types : Nat → Option CustomInfo) (
   | .chain steps final =>
     .ok { name := d.name, base := B, fields := fds, default := defaultVal, debug := d.debug,
           builder := some (steps, final), items := structItems d fds (some (steps, final)) }
+
+end Bb
+
+namespace Bb
+
+/-- the `Debug` impl: `f.debug_struct(stringify!(Name)).field(stringify!(f), &self.f())….finish()` – struct name and
+    the field names in emission order; `none` when the `debug` option is absent -/
+def debugImpl (p : Program) : Option (String × List String) :=
+  if p.debug then some (p.name, p.fields.map (·.name)) else none
+
+/-- every path (as its segments) that the templates of `mod.rs` / `codegen.rs` emit, besides user-supplied types;
+    a leading `""` stands for a leading `::` -/
+def programPaths (p : Program) : List (List String) :=
+  [["Self"], ["Self", "new_with_raw_value"], ["Self", "DEFAULT"], ["Self", "DEFAULT_RAW_VALUE"]] ++
+  (if p.base.isArbitrary then [["arbitrary_int", "u" ++ toString p.base.exposed]] else []) ++
+  (p.fields.filter (fun fd => !fd.useRegularInt && fd.fieldTypeSize ≠ 0)).map (fun fd => ["arbitrary_int", "u" ++ toString fd.totalBits]) ++
+  (if p.debug then [["", "core", "fmt", "Debug"], ["", "core", "fmt", "Formatter"], ["", "core", "fmt", "Result"]] else []) ++
+  (if p.default.isSome then [["Default"]] else [])
+
+/-- the arguments of the builder chain: one value per scalar step, `count` values per array step -/
+inductive BuilderArg where
+  | scalar (fv : Val) (v : Nat)
+  | array (elems : List (Val × Nat))
 
 end Bb
